@@ -127,6 +127,17 @@ func (d *diskRun) store(data []byte) string {
 	return p
 }
 
+// storeAt overwrites the file at an existing path.
+func (d *diskRun) storeAt(p string, data []byte) {
+	if d.real {
+		if err := os.WriteFile(p, data, 0o644); err != nil {
+			panic("real disk write failed: " + err.Error())
+		}
+		return
+	}
+	d.disk.Put(p, data)
+}
+
 var utf8Atoms = [][]byte{
 	{0x80}, {0xBF}, // stray continuation
 	{0xC3}, {0xE2, 0x82}, {0xF0, 0x9F, 0x98}, // truncated
@@ -192,7 +203,7 @@ func placements(b []byte) [5][]int {
 }
 
 var diskFaults = []string{"none", "torn", "torn", "torn", "utf8", "utf8", "bitflip", "garbage-span", "dropped-span", "duplicated-span",
-	"zero-tail", "random-bytes", "decorated", "read-fault", "read-fault", "tiny-inputs"}
+	"zero-tail", "random-bytes", "decorated", "read-fault", "read-fault", "tiny-inputs", "rewrite-in-place"}
 
 func genDocument(s *simrt.Sim, objRoot bool) (any, string) {
 	o := treeOpts{depth: 1 + s.Draw("doc-depth", 3), width: 1 + s.Draw("doc-width", 6), jsonSafe: true}
@@ -317,7 +328,64 @@ func runDisk(ch *simrt.Chooser, opt Options) RunResult {
 			res.NonTrivial = true
 		}
 		b := []byte(doc)
+		// the intact document is parsed before everything else and once more after all the other parses of this run:
+		// "the same input always gives the same outcome", also across an intervening history of rejected inputs
+		intact := doc
+		base := parse(intact)
+		defer func() {
+			if d.failed {
+				return
+			}
+			again := parse(intact)
+			res.Evals++
+			if again.class() != base.class() || again.canon != base.canon {
+				d.fail("not-repeatable", fmt.Sprintf("the intact %d-byte document gave %s before and %s after the %d other parses of this run", len(intact), base.class(), again.class(), res.Evals))
+			}
+		}()
 		switch fault {
+		case "rewrite-in-place":
+			// the same path is read, overwritten with different content of the same length, and read again
+			if !objRoot {
+				_, doc = genDocument(s, true)
+				b = []byte(doc)
+			}
+			p := d.store(b)
+			first := parseFil(p)
+			res.Evals++
+			if o := parseObj(doc); first.class() != o.class() || first.canon != o.canon {
+				d.fail("parsefile-differs", fmt.Sprintf("ParseFile gives %s, ParseObject on the same %d bytes gives %s", first.class(), len(b), o.class()))
+				break
+			}
+			variant := append([]byte(nil), b...)
+			changed := 0
+			for tries := 0; tries < 64 && changed < 1+s.Draw("rewrite-changes", 3) && len(variant) > 2; tries++ {
+				k := 1 + s.Draw("rewrite-at", len(variant)-2)
+				c := variant[k]
+				switch {
+				case c >= '0' && c <= '8':
+					variant[k] = c + 1
+					changed++
+				case c >= 'a' && c <= 'y' && s.Draw("rewrite-letters", 2) == 0:
+					variant[k] = c + 1
+					changed++
+				}
+			}
+			if changed == 0 && len(variant) > 2 {
+				variant[1+s.Draw("rewrite-at", len(variant)-2)] ^= 0x01
+			}
+			d.storeAt(p, variant)
+			fired("rewrite-same-length")
+			res.Faults = append(res.Faults, fmt.Sprintf("file rewritten in place with %d changed byte(s), same length", changed))
+			second := parseFil(p)
+			want := parseObj(string(variant))
+			res.Evals += 2
+			if !second.exclusive() {
+				d.fail("not-exclusive", "ParseFile after an in-place rewrite: "+second.class())
+			} else if second.class() != want.class() || second.canon != want.canon {
+				d.fail("parsefile-differs", fmt.Sprintf("after the file was rewritten in place ParseFile gives %s %s, ParseObject on the new bytes gives %s %s",
+					second.class(), short(second.canon, 100), want.class(), short(want.canon, 100)))
+			}
+			res.Finger = fnv(0, hashString("rewrite"), hashString(string(variant)))
 		case "none":
 			both(b, "intact document")
 			res.Finger = fnv(0, hashString("none"), hashString(doc))
